@@ -30,6 +30,7 @@ import (
 	"github.com/dadrus/heimdall/internal/rules/mechanisms/finalizers"
 	"github.com/dadrus/heimdall/internal/rules/mechanisms/subject"
 	"github.com/dadrus/heimdall/internal/rules/provider/filesystem"
+	"github.com/dadrus/heimdall/internal/rules/provider/kubernetes"
 	"github.com/dadrus/heimdall/internal/zzverif/c18"
 	"github.com/dadrus/heimdall/internal/zzverif/vf"
 )
@@ -300,5 +301,120 @@ func TestVerifC18Real(t *testing.T) {
 		c := c18.FsGen(root.Fork(uint64(i)), true)
 		c.Undel = []int{} // the real repository never refuses a deletion
 		emit("generated", c)
+	}
+}
+
+// ---- Kubernetes provider -> real processor -> real factory -> real repository -------------------------
+//
+// The Kubernetes provider keeps no record of what it loaded: first sight of an object is OnCreated, every later
+// generation OnUpdated, a deletion OnDeleted — also when an earlier call failed.  Whether that converges depends
+// on how the real processor and repository treat "update of something not loaded" and "delete of something not
+// loaded"; the recording double of the k8s stream cannot tell.  Here the same histories (rejected first versions
+// that are then corrected, class changes, relists ...) run against the real ones, and what the repository holds
+// per object is read after every event.
+
+const c18KUIDs = 24 // UIDs looked at in the repository
+
+func c18KRepoSnapshot(repo *repository) func() []int {
+	return func() []int {
+		repo.knownRulesMutex.Lock()
+		defer repo.knownRulesMutex.Unlock()
+
+		out := make([]int, c18KUIDs)
+		for u := range out {
+			out[u] = -1
+		}
+
+		for _, r := range repo.knownRules {
+			var uid, cid int
+
+			if _, err := fmt.Sscanf(r.SrcID(), "kubernetes:ns:uid-%d", &uid); err != nil || uid >= c18KUIDs {
+				continue
+			}
+
+			if _, err := fmt.Sscanf(r.ID(), "r%d", &cid); err != nil || out[uid] >= 0 {
+				out[uid] = c18.UnknownCid // not the rules of exactly one accepted content
+			} else {
+				out[uid] = cid
+			}
+		}
+
+		return out
+	}
+}
+
+func TestVerifC18K8sReal(t *testing.T) {
+	w := vf.NewWriter()
+	defer w.Close()
+
+	root := vf.NewRand(vf.Seed() + 777001)
+	n := vf.N(200)
+
+	var (
+		cases   []kubernetes.VerifKCase
+		idxs    []int
+		streams []string
+	)
+
+	idx := 0
+	add := func(stream string, c kubernetes.VerifKCase) {
+		c.Undel = []int{} // the real repository never refuses a deletion
+
+		if vf.Want(idx) {
+			cases, idxs, streams = append(cases, c), append(idxs, idx), append(streams, stream)
+		}
+
+		idx++
+	}
+
+	for _, c := range append(kubernetes.VerifKCorpus(), c18.LoadCorpus[kubernetes.VerifKCase]("k8s")...) {
+		add("corpus", c)
+	}
+
+	for i := 0; i < n; i++ {
+		add("generated", kubernetes.VerifKGen(root.Fork(uint64(i)), i%8 == 0))
+	}
+
+	steps, snaps, errs := kubernetes.VerifKRunAll(cases, func() kubernetes.VerifKOpts {
+		factory, err := NewRuleFactory(c18Catalogue{}, &config.Configuration{}, config.DecisionMode, zerolog.Nop())
+		if err != nil {
+			panic(err)
+		}
+
+		repo := newRepository(factory).(*repository) //nolint:forcetypeassert
+
+		return kubernetes.VerifKOpts{Next: NewRuleSetProcessor(repo, factory), Snapshot: c18KRepoSnapshot(repo)}
+	})
+
+	for j, c := range cases {
+		if errs[j] != nil {
+			t.Fatalf("case %d: %v", idxs[j], errs[j])
+		}
+
+		active := make([]string, len(snaps[j]))
+		for i, s := range snaps[j] {
+			active[i] = c18OptInts(s)
+		}
+
+		tags, csteps := kubernetes.VerifKTags(c, steps[j])
+
+		// the objects of the initial list are handled together: the first snapshot is taken after the last of them
+		skip := 0
+
+		for _, e := range c.Hist {
+			if e.Initial {
+				skip++
+			}
+		}
+
+		if skip > 0 {
+			skip--
+		}
+
+		w.Put(vf.Obs{
+			I: idxs[j], Stream: streams[j], In: c, Out: map[string]any{"steps": steps[j], "repository": snaps[j]},
+			Coq:        fmt.Sprintf("(k8r %s %d [%s])", kubernetes.VerifKCoq(c, steps[j]), skip, strings.Join(active, "; ")),
+			Nontrivial: c18.Nontrivial(csteps), Tags: tags,
+		})
 	}
 }
